@@ -167,6 +167,9 @@ def run_case(case):
 
     CMP_OPS = {"<", ">", "<=", ">=", "==", "!="}
 
+    ckey = lang.cse_key(prog)
+    leak_shape = known.active("shared-network-leak") and lang.shared_source_shape(prog)
+
     def fold_ints(e):
         """2 % 3 + in1 is 2 + in1 once the integer sub-expression is folded (which happens before CSE)."""
         if isinstance(e, lang.Paren):
@@ -259,7 +262,7 @@ def run_case(case):
             excluded["F-folded-name"] = excluded.get("F-folded-name", 0) + 1
             continue
         if known.active("cse-drops-name") and case.get("optimize", True) and name in decl_of and any(
-                owner != name and not isinstance(x, (Ref, lang.Num)) and cse_norm(x) == cse_norm(decl_of[name].e) for owner, x in all_sub):
+                owner != name and not isinstance(x, (Ref, lang.Num)) and ckey(x) == ckey(decl_of[name].e) for owner, x in all_sub):
             # open finding F-cse-name: of two names bound to structurally equal expressions only one survives CSE
             excluded["F-cse-name"] = excluded.get("F-cse-name", 0) + 1
             continue
@@ -302,6 +305,9 @@ def run_case(case):
             a = anchors[0]
             if a.kind != "const" or a.const_signals():
                 fails.append({"sig": f"{kind}:anchor-not-empty-constant", "detail": {"name": name, "entity": a.name, "signals": a.const_signals()}})
+        if leak_shape:
+            excluded["F-leak"] = excluded.get("F-leak", 0) + 1  # the label is judged, the value on the anchor is not
+            continue
         f, n, _u = common.compare_named_outputs(prog, circ, env, [name], label="labels", check_type=False, lines_of={name: group_lines})
         for x in f:
             x["sig"] = f"{kind}:anchor-{x['sig']}"
